@@ -715,7 +715,9 @@ func (p *c16) batchRules(x *res, ctx *runner.Ctx) {
 					}
 				}
 			}
-			for _, shape := range []string{"neither", "both", "neither-among-valid", "both-among-valid", "neither-last-of-25", "both-first-of-20", "absent", "absent-among-valid"} {
+			for _, shape := range []string{"neither", "both", "neither-among-valid", "both-among-valid", "neither-last-of-25", "both-first-of-20", "absent", "absent-among-valid",
+				// both members present, one of them allocated but without content (PutRequest{Item} + DeleteRequest{}, and the mirror image)
+				"both-with-empty-delete", "both-with-empty-put", "both-with-empty-delete-among-valid", "both-with-empty-put-among-valid"} {
 				cl, _, _ := freshClient(adapter, specs[0])
 				for _, op := range mode.pre {
 					cl.Do(op)
@@ -725,6 +727,12 @@ func (p *c16) batchRules(x *res, ctx *runner.Ctx) {
 				bad := adapt.BatchEntry{Table: t}
 				if strings.HasPrefix(shape, "both") {
 					bad = adapt.BatchEntry{Table: t, Put: val.Item{"h": val.Str("b")}, Del: val.Item{"h": val.Str("b")}}
+				}
+				if strings.HasPrefix(shape, "both-with-empty-delete") {
+					bad.Del = val.Item{}
+				}
+				if strings.HasPrefix(shape, "both-with-empty-put") {
+					bad.Put = val.Item{}
 				}
 				if strings.HasPrefix(shape, "absent") {
 					bad = adapt.BatchEntry{Table: t, Absent: true}
